@@ -77,14 +77,16 @@ def nontrivial(files, pl, single):
 
 def run_case(run, tf, drv, files, pl, single, via_cli, tag, spelling=None):
     case = {"files": [(rel, b.token()) for rel, b in files], "pl": pl, "single": single,
-            "via_cli": via_cli, "gen": tag, "spelling": spelling}
+            "via_cli": via_cli, "gen": tag, "spelling": spelling,
+            "links": {rel: b.hardlink_of for rel, b in files if getattr(b, "hardlink_of", None)}}
     with sandbox("c01") as box:
         root = os.path.join(box, "payload")
         if single:
             root = os.path.join(box, files[0][0].split("/")[-1])
             write_tree(box, [(files[0][0].split("/")[-1], files[0][1].bytes())])
         else:
-            write_tree(root, [(rel, b.bytes()) for rel, b in files])
+            from harness.props import creation as _cr
+            _cr.materialize(box, files, False)
         out = os.path.join(box, "out.torrent")
         spelled, wd = root, None
         if case.get("spelling") and not single:
@@ -130,6 +132,37 @@ def _short(v):
     return repr(v)[:300]
 
 
+def big_piece(run):
+    """Explicit piece length 2^25 with a file larger than 16 MiB (and larger than a piece):
+    the pieces must still be cut where the recorded piece length says."""
+    import pyben  # noqa
+    from harness.props import creation as cr
+    pl = 2 ** 25
+    with sandbox("c01b") as box:
+        root = os.path.join(box, "payload")
+        os.makedirs(root)
+        pat = Blob.rand(9, 1021).bytes()
+        sizes = {"big.bin": 36 * 2 ** 20 + 5, "z-small": 1000}
+        for name, n in sizes.items():
+            with open(os.path.join(root, name), "wb") as fd:
+                fd.write((pat * (n // 1021 + 1))[:n])
+        out = os.path.join(box, "o.torrent")
+        case = {"big_piece": True, "pl": pl, "sizes": sizes}
+        try:
+            from harness import impl
+            raw = impl.create("v1", root, out, piece_length=pl)
+        except Exception as exc:
+            run.fail("impl-vs-spec", case, {"raised": repr(exc)})
+            return
+        info = refspec.lenient_decode(raw)[b"info"]
+        stream = b"".join(open(os.path.join(root, n), "rb").read() for n in sorted(sizes))
+        if info.get(b"piece length") != pl or bytes(info.get(b"pieces", b"")) != refspec.v1_pieces(stream, pl) \
+                or [(tuple(e[b"path"]), e[b"length"]) for e in info.get(b"files", [])] != \
+                [((n.encode(),), sizes[n]) for n in sorted(sizes)]:
+            run.fail("impl-vs-spec", case, {"why": "pieces / files / piece length differ from BEP 3"})
+        run.case(["big-piece", pl], True, sample=case, classes=["big-piece"])
+
+
 def run(tier, seed, replay=None):
     tf = use_repo()
     run = Run("C01", tier, seed, RULE)
@@ -138,7 +171,8 @@ def run(tier, seed, replay=None):
     B = 16384
     if replay:
         c = replay["case"]
-        files = [(rel, _blob(tok)) for rel, tok in c["files"]]
+        from harness.props import creation as _cr
+        files = _cr.files_of_case(c)
         run_case(run, tf, drv, files, c["pl"], c["single"], c["via_cli"], "replay",
                  spelling=c.get("spelling"))
     else:
@@ -153,6 +187,7 @@ def run(tier, seed, replay=None):
                 files, _ = gen.tree(rng, B, pl, big=(tier != "quick"))
             run_case(run, tf, drv, files, pl, single, rng.random() < 0.3, "random",
                      spelling=rng.choice([None, None, None, "trail", "dot", "dotslash", "dbl", "updown"]))
+        big_piece(run)
         if tier == "thorough":
             classes = gen.size_classes(B, B)
             for pl in (B, 2 * B):
@@ -166,7 +201,8 @@ def run(tier, seed, replay=None):
     from harness.props import creation as cr
     def still_fails(c):
         probe = Run("C01", tier, seed, RULE)
-        files = [(rel, _blob(tok)) for rel, tok in c["files"]]
+        from harness.props import creation as _cr
+        files = _cr.files_of_case(c)
         run_case(probe, tf, Driver(), files, c["pl"], c["single"], c["via_cli"], "shrink",
                  spelling=c.get("spelling"))
         return any(f.kind == "impl-vs-spec" for f in probe.failures)
